@@ -47,6 +47,7 @@ KeySet ==
 
 Cfg ==
   CASE CfgName = "mem"      -> [DefaultCfg EXCEPT !.suspDelete = "code", !.suspNone = "None", !.oldNull = "keep"]
+    [] CfgName = "memenabled" -> [DefaultCfg EXCEPT !.suspDelete = "code", !.suspNone = "None", !.oldNull = "keep"]
     [] CfgName = "memauto"  -> [DefaultCfg EXCEPT !.auto = TRUE, !.suspDelete = "code", !.suspNone = "None", !.oldNull = "keep"]
     [] CfgName = "plain"    -> [DefaultCfg EXCEPT !.versioned = FALSE, !.paginate = FALSE]
     [] CfgName = "plainerr" -> [DefaultCfg EXCEPT !.versioned = FALSE, !.paginate = FALSE, !.pageErr = TRUE]
@@ -55,7 +56,15 @@ Cfg ==
     [] CfgName = "set"      -> DefaultCfg
 
 Init0 == IF Cfg.single # "" THEN [InitState EXCEPT !.bk = Upd(<<>>, Cfg.single, NewBucket)] ELSE InitState
-Init == st = Init0 /\ hist = <<>> /\ ghost = {}
+\* "memenabled": histories start with the bucket created and versioning enabled
+PreHist == IF CfgName = "memenabled"
+             THEN << [op |-> [op |-> "CreateBucket", b |-> "bkt1"], r |-> [st |-> 200, code |-> ""]],
+                     [op |-> [op |-> "PutVersioning", b |-> "bkt1", status |-> "Enabled"], r |-> [st |-> 200, code |-> ""]] >>
+             ELSE <<>>
+PreState == IF CfgName = "memenabled"
+              THEN [InitState EXCEPT !.bk = Upd(<<>>, "bkt1", [ver |-> "Enabled", objs |-> <<>>])]
+              ELSE Init0
+Init == st = PreState /\ hist = PreHist /\ ghost = {}
 
 BodySet == {<<x>> : x \in Bodies} \cup (IF WithEmpty THEN {<<>>} ELSE {})
 NextVid(s) == "v" \o ToString(Cardinality(s.vids) + 1)
